@@ -49,3 +49,31 @@ func Gen(store string) func(t *rapid.T) *Case {
 		return c
 	}
 }
+
+func GenSched(t *rapid.T) *SchedCase {
+	c := &SchedCase{}
+	nt := rapid.IntRange(1, 3).Draw(t, "ntasks")
+	for i := 0; i < nt; i++ {
+		n := rapid.IntRange(1, 3).Draw(t, "nev")
+		var evs []int
+		for j := 0; j < n; j++ {
+			evs = append(evs, rapid.SampledFrom([]int{1, 1, 1, 3}).Draw(t, "ty"))
+		}
+		c.Tasks = append(c.Tasks, evs)
+	}
+	c.Schedule = rapid.SliceOfN(rapid.IntRange(0, 2), 0, 40).Draw(t, "schedule")
+	if rapid.IntRange(0, 3).Draw(t, "crash") != 0 {
+		c.CrashStep = rapid.IntRange(1, 25).Draw(t, "crashStep")
+	}
+	return c
+}
+
+func GenFree(t *rapid.T) *FreeCase {
+	c := &FreeCase{Rounds: 10, Procs: rapid.SampledFrom([]int{2, 4, 16}).Draw(t, "procs")}
+	np := rapid.IntRange(2, 6).Draw(t, "np")
+	for i := 0; i < np; i++ {
+		c.Publishers = append(c.Publishers, rapid.IntRange(1, 10).Draw(t, "n"))
+	}
+	c.SaveNoise = rapid.SliceOfN(rapid.IntRange(0, 4), 1, 5).Draw(t, "noise")
+	return c
+}
